@@ -66,25 +66,46 @@ class Gen:
         return "o%d" % self.nfile
 
     def redir(self):
+        """every redirect kind, with an explicit fd number 0-9 on 4 in 10 of them"""
         f = self.fname()
-        if self.plain:
-            ks = [">%s" % f, ">>%s" % f, "<in", "2>&1", ">&2", "2>%s" % f, "<>%s" % f, ">|%s" % f, "&>%s" % f, "&>>%s" % f,
-                  "<<<a", "3>%s" % f, "<&0", "2>>%s" % f, "1>&2"]
-        else:
-            ks = [">%s" % f, ">>%s" % f, "<in", "2>&1", ">&2", "2>%s" % f, "<>%s" % f, ">|%s" % f, "&>%s" % f, "&>>%s" % f,
-                  "<<<a", "<<<\"$x w\"", "3>%s" % f, "<&0", "2>>%s" % f, "1>&2", "> %s" % f]
-        return self.pick(ks)
+        if self.runnable:
+            # programs that are run: descriptors 0-2 are only redirected in the usual ways, explicit numbers 3-9 only open
+            # files or here-strings (closing or cross-wiring 0-2 inside pipelines makes the outcome depend on scheduling)
+            n = str(self.rng.randrange(3, 10))
+            ks = ["<in", ">%s" % f, ">>%s" % f, "<>%s" % f, ">|%s" % f, "2>&1", ">&2", "1>&2", "<&0", "<<<a", "2>%s" % f, "2>>%s" % f,
+                  n + ">" + f, n + ">>" + f, n + "<in", n + "<<<a", n + "<>" + f, n + ">|" + f, "1>" + f, "0<in",
+                  "&>%s" % f, "&>>%s" % f]
+            if not self.plain:
+                ks += ['<<<"$x w"', "> %s" % f]
+            k = self.pick(ks)
+            if k[0].isdigit():
+                self.feat.add("fd_redir")
+                if "<<<" in k:
+                    self.feat.add("fd_herestring")
+            return k
+        fd = str(self.rng.randrange(0, 10)) if self.rng.random() < 0.4 else ""
+        m = str(self.pick([0, 1, 2, 2, 1, 5]))
+        ks = ["<in", ">%s" % f, ">>%s" % f, "<>%s" % f, ">|%s" % f, "<&%s" % m, ">&%s" % m, "<&-", ">&-", "<<<a",
+              ">%s" % f, "<in", ">&%s" % m]
+        if not self.plain:
+            ks += ['<<<"$x w"', "> %s" % f]
+        k = self.pick(ks + ["&>%s" % f, "&>>%s" % f])
+        if k.startswith("&>"):
+            return k
+        if fd:
+            self.feat.add("fd_redir")
+            if k.startswith("<<<"):
+                self.feat.add("fd_herestring")
+        return fd + k
 
     def redirs(self, maxn, compound=False):
         n = self.pick([0, 0, 0, 1, 1, 2, 3][:4 + maxn])
         rs = [self.redir() for _ in range(min(n, maxn))]
-        if compound and self.clean:
-            rs = [r for r in rs[:1] if not r[0].isdigit()]
         if compound and rs:
             self.feat.add("compound_redir")
             if len(rs) >= 2 or rs[0][0].isdigit():
                 self.feat.add("risky_redirs")
-            if rs[0].startswith("&>") :
+            if rs[0].startswith("&>"):
                 self.feat.add("compound_redir_amp")
         return rs
 
@@ -96,7 +117,10 @@ class Gen:
             pre = [self.pick(["v=1", "x=a", "w=$x", "e="])]
         if not self.plain and r > 0.93:
             self.feat.add("array_assign")
-            return self.pick(["arr=(1 2 [5]=x)", "arr+=(y)", "declare -a q=(a b)"])
+            return self.pick(["arr=(1 2 [5]=x)", "arr+=(y)", "declare -a q=(a b)", "arr[1]+=v", "arr[2]=w", "x+=s",
+                              "declare -A m=([k]=v [j]=w)", "m[k]+=z", "arr=([3]=c [1]=a)", "arr=() x=",
+                              "arr+=(y \"$x z\"); echo \"${arr[@]}\" \"${#arr[@]}\"",
+                              "arr=(p q); arr[1]+=r; arr+=([7]=s); echo \"${arr[@]}\" \"${!arr[@]}\""])
         kind = self.rng.random()
         if kind < 0.55:
             words = ["echo"] + [self.word() for _ in range(self.rng.randrange(0, 4))]
@@ -116,6 +140,11 @@ class Gen:
             tag = self.pick(["EOF", "E2"])
             q = self.pick(["", "", "'", "-", "|"])
             body = self.pick(["h1 $x\nh2\n", "one\n", "\ttab\n", ""])
+            if q == "" and self.rng.random() < 0.4:
+                n = self.pick([0, 3, 5])
+                return "cat %d<<%s <&%d\n%s%s\0" % (n, tag, n, body, tag)
+            if q == "-" and self.rng.random() < 0.4:
+                return "cat 4<<-%s <&4\n%s\t%s\0" % (tag, body, tag)
             if q == "'":
                 return "cat <<'%s'\n%s%s\0" % (tag, body, tag)
             if q == "-":
@@ -124,6 +153,11 @@ class Gen:
                 self.feat.add("heredoc_in_pipe")
                 return "cat <<%s | cat\n%s%s\0" % (tag, body, tag)
             return "cat <<%s\n%s%s\0" % (tag, body, tag)
+        elif kind < 0.88:
+            n = self.pick([3, 4, 7, 9])
+            self.feat.add("fd_redir")
+            self.feat.add("fd_herestring")
+            return "cat %d<<<payload%d <&%d" % (n, n, n)
         elif kind < 0.9:
             words = ["read", "rv"]
             return " ".join(pre + words + ["<in"])
@@ -131,8 +165,6 @@ class Gen:
             # redirect first
             self.feat.add("redir_first")
             rd = self.redir()
-            if rd.startswith("&>") and self.clean:
-                rd = ">%s" % self.fname()
             if rd.startswith("&>"):
                 self.feat.add("redir_first_amp")
             return " ".join([rd, "echo", self.word()])
@@ -157,7 +189,7 @@ class Gen:
         if r < 0.53:
             return "( %s )%s" % (self.lst(depth - 1), self.sp_redirs())
         if r < 0.62:
-            if self.rng.random() < 0.15 and not self.clean:
+            if self.rng.random() < 0.15:
                 self.feat.add("for_no_in")
                 return "for v; do %s; done%s" % (self.lst(depth - 1), self.sp_redirs())
             ws = " ".join(self.word() for _ in range(self.rng.randrange(0, 3)))
@@ -203,14 +235,22 @@ class Gen:
             self.feat.add("arith")
             k = self.pick([0, 1, 2, 3])
             if k == 2:
-                return "for ((i=0; i<2; i++)); do %s; done" % self.lst(depth - 1)
+                hd = self.pick(["((i=0; i<2; i++))", "(( ; ; ))", "(( i = 0 ; i < 2 ; i += 1 ))", "((i=0, j=3; i<j; i++, j--))"])
+                body = self.lst(depth - 1)
+                return "for %s; do %s%s; done%s" % (hd, "break; " if hd == "(( ; ; ))" else "", body, self.sp_redirs())
             return ["(( x = 1 + 2 ))", "((x++))", "", "(( y = x << 2 ))"][k]
         if r < 0.96:
             self.feat.add("exttest")
             if self.extglob and self.rng.random() < 0.6:
                 self.feat.add("extglob")
                 return self.pick(["[[ $1 == +([0-9]) ]]", "[[ $x == @(7|ab) && -n $y ]]", "[[ $y != !(ab) ]]"])
-            return self.pick(["[[ -n $x && $y == a* ]]", "[[ a < b || ! -f in ]]", "[[ $x =~ ^a+$ ]]", "[[ ( -z $x ) ]]"])
+            return self.pick(["[[ -n $x && $y == a* ]]", "[[ a < b || ! -f in ]]", "[[ $x =~ ^a+$ ]]", "[[ ( -z $x ) ]]",
+                              "[[ $x -eq 7 ]]", "[[ 3 -lt $# || $x -ge 2 ]]", "[[ $x != a?c ]]", "[[ b > a ]]", "[[ in -nt o1 ]]",
+                              "[[ -v x && ! -d in ]]", "[[ $y = \"a b\" ]]", "[[ ! ( $x == 7 && -e in ) ]]", "[[ -r in && -s in ]]",
+                              "[[ $x ]]", "[[ -o errexit ]]", "[[ in -ef in ]]"])
+        if self.rng.random() < 0.3:
+            self.feat.add("coproc")
+            return self.pick(["coproc cat", "coproc CP { cat; }", "coproc { cat; echo x; } 2>&1"])
         self.feat.add("procsub")
         k = self.pick([0, 1, 2])
         if k == 0:
@@ -230,9 +270,9 @@ class Gen:
         if r < 0.08:
             self.feat.add("bang")
             pre = "! "
-        elif r < 0.12 and not self.plain and not self.runnable:
+        elif r < 0.14 and not self.plain and not self.runnable:
             self.feat.add("time")
-            pre = self.pick(["time ", "time -p "])
+            pre = self.pick(["time ", "time -p ", "time ! ", "time -p ! "])
         n = self.pick([1, 1, 1, 2, 3])
         if self.runnable:
             cs = [self.cmd(depth)] + [self.consumer(depth) for _ in range(n - 1)]
@@ -247,7 +287,7 @@ class Gen:
         k = self.pick([0, 0, 1, 2, 3, 4, 5])
         if k == 0:
             rs = self.redirs(2)
-            return " ".join(["cat"] + [r for r in rs if not r.startswith(("<", "&>")) or False])
+            return " ".join(["cat"] + [r for r in rs if "<" not in r and not r.startswith("&>")])
         if k == 1:
             return "{ cat; %s; }%s" % (self.lst(depth - 1), self.sp_redirs_out())
         if k == 2:
@@ -260,7 +300,7 @@ class Gen:
 
     def sp_redirs_out(self):
         """redirect list for a consumer: never redirects its stdin"""
-        rs = [r for r in self.redirs(3, compound=True) if not r.startswith("<") and "<" not in r]
+        rs = [r for r in self.redirs(3, compound=True) if "<" not in r]
         return (" " + " ".join(rs)) if rs else ""
 
     def andor(self, depth, allow_here=False):
@@ -292,11 +332,14 @@ class Gen:
 
     def function(self, depth=3):
         body = self.lst(depth)
+        head = self.pick(["f()", "f()", "f ()", "function f", "function f()", "function f ()"])
+        if head.startswith("function"):
+            self.feat.add("function_keyword")
         if self.rng.random() < 0.1:
-            src = "f() ( %s )%s" % (body, self.sp_redirs())
+            src = "%s ( %s )%s" % (head, body, self.sp_redirs())
             self.feat.add("subshell_body")
         else:
-            src = "f() { %s; }%s" % (body, self.sp_redirs())
+            src = "%s { %s; }%s" % (head, body, self.sp_redirs())
         return fix_heredocs(src)
 
 
@@ -432,6 +475,51 @@ def norm_lines(s):
     return re.sub(r"line \d+:", "line N:", s)
 
 
+def impl_marked(ctx, cases, timeout=600):
+    """c14rt through the harness in shards of our own: result lines carry the mark `@@ ` (anything else on the harness's
+    stdout is output leaked by a generated function and is dropped); every shard runs in its own process group"""
+    import signal, threading
+    lines = [core.enc_case(c) for c in cases]
+    if not lines:
+        return []
+    shards = min(core.NPROC, max(1, len(lines) // 8))
+    chunks = [lines[i::shards] for i in range(shards)]
+    os.makedirs(core.SCRATCH, exist_ok=True)
+    env = dict(os.environ)
+    env["VERIF_SCRATCH"] = core.SCRATCH
+    outs = [None] * shards
+
+    def feed(i):
+        p = subprocess.Popen([ctx.harness, "c14rt"], stdin=subprocess.PIPE, stdout=subprocess.PIPE, stderr=subprocess.DEVNULL,
+                             env=env, start_new_session=True)
+        why = "DIED"
+        try:
+            o, _ = p.communicate(("\n".join(chunks[i]) + "\n").encode(), timeout=timeout)
+        except subprocess.TimeoutExpired:
+            why = "TIMEOUT"
+            try:
+                os.killpg(p.pid, signal.SIGKILL)
+            except (ProcessLookupError, PermissionError):
+                pass
+            o, _ = p.communicate()
+        finally:
+            try:
+                os.killpg(p.pid, signal.SIGKILL)
+            except (ProcessLookupError, PermissionError):
+                pass
+        got = [l[3:] for l in o.decode("utf-8", "replace").split("\n") if l.startswith("@@ ")]
+        outs[i] = (got, why)
+    ths = [threading.Thread(target=feed, args=(i,)) for i in range(shards)]
+    [x.start() for x in ths]
+    [x.join() for x in ths]
+    res = [None] * len(lines)
+    for i in range(shards):
+        got, why = outs[i]
+        for j, _ in enumerate(chunks[i]):
+            res[i + j * shards] = got[j] if j < len(got) else why
+    return res
+
+
 def export_path(ctx, extended, specv):
     """the real export path: the parent brush exports the function (BASH_FUNC_f%%) to a child brush it starts itself, and a
     fresh brush gets the same variable in its environment; the child's declare -f text and behaviour must be the parent's"""
@@ -481,7 +569,7 @@ def export_path(ctx, extended, specv):
         return k, res
     stats = {"cases": 0, "not_defined_in_parent": 0, "child_ok": 0, "env_child_ok": 0, "with_extglob": 0, "in_process_bad": 0}
     # the same functions through the in-process round trip (parse, print, parse, print, import)
-    for (src, call, feat), line in zip(cases, ctx.impl("c14rt", [[s, ""] for s, _, _ in cases])):
+    for (src, call, feat), line in zip(cases, impl_marked(ctx, [[s, ""] for s, _, _ in cases])):
         f = core.dec_line(line) if not line.startswith(("PANIC", "DIED", "TIMEOUT")) else ["?"]
         if f and f[0] not in ("-", "P", "N"):
             stats["in_process_bad"] += 1
@@ -522,6 +610,33 @@ def export_path(ctx, extended, specv):
     return stats, len(cases)
 
 
+# one small function per enumerated construct, run first on every check (runnable: deterministic)
+CORPUS = [
+    "f() { cat 3<<<payload <&3; }", "f() { cat 0<in; echo a 1>o1 2>o2; echo b 1>>o1 2>>o2; cat o1; }",
+    "f() { echo a 5>o1 6>>o2 7<>o3 8>|o4 9<in; }", "f() { echo a 2>&1 1>&2 >&2; echo b 4>&1 >&4; }",
+    "f() { echo a 3>&- 4<&-; cat <in 5<&0 <&5; }", "f() { echo a &>o1; echo b &>>o1; cat o1; }",
+    "f() { { echo a; echo b >&3; } 3>o1 >o2 2>&1; cat o1 o2; }", "f() ( echo sub 4>o1 >&4 ) 5<in",
+    "f() { for v in a b; do echo $v; done 3>o1 >&3; cat o1; } 6<in", "f() { while read l; do echo $l; done 7<in <&7; }",
+    "f() { if true; then echo t; fi 8>o1 1>&8; cat o1; }", "f() { case $1 in a) echo A ;;& *) echo S ;& z) echo Z ;; esac 9>o1; }",
+    "f() { g() { echo in; } 3>o1; g; } 4<<<w", "function f { echo kw; }", "function f() { echo kw2; } 2>&1", "function f () ( echo kw3 )",
+    "f() { arr=(1 2 [5]=x); arr+=(y); arr[1]+=v; arr[0]=w; echo \"${arr[@]}\" \"${!arr[@]}\"; }",
+    "f() { declare -A m=([k]=v [j]=w); m[k]+=z; echo \"${m[k]}\" \"${m[j]}\"; x=a; x+=s; echo $x; }",
+    "f() { ! true; echo $?; ! false | cat; echo $?; }", "f() { for ((i=0; i<2; i++)); do echo $i; done; for (( ; ; )); do break; done; }",
+    "f() { for ((i=0, j=3; i<j; i++, j--)); do echo $i$j; done 3>o1; (( x = 1 << 2 )); echo $x; }",
+    "f() { [[ $1 == a* && -n $2 ]] && echo m; [[ b > a || ! -f in ]] && echo n; [[ $1 =~ ^a+$ ]]; echo $?; [[ 3 -lt 5 ]] && echo lt; }",
+    "f() { [[ ! ( $1 == 7 && -e in ) ]] && echo p; [[ $1 != a?c ]] && echo q; [[ -v x ]]; echo $?; [[ in -ef in ]] && echo same; }",
+    "f() { for v; do echo $v; done; for v in; do echo never; done; }", "f() { until false; do echo u; break; done; while false; do :; done; echo w; }",
+    "f() { echo a | cat | tr a b; true && echo y || echo n; false || echo z; }", "f() { v=1 w=2 echo $v; x=7 env | grep -c '^x=7'; }",
+    "f() { echo $(echo sub) `echo bq` ${1:-d} \"q r\" 's t' a\\ b $'t\\tu'; }", "f() { if false; then echo 1; elif true; then echo 2; else echo 3; fi; }",
+    "f() { 2>&1 echo first; >o1 3<in echo second; cat o1; }", "f() { cat 4<<<\"$1 w\" <&4; cat <<<plain; }",
+]
+CORPUS_NORUN = [
+    "f() { time true; time -p false; time ! true; time -p ! false | cat; }", "f() { coproc cat; }", "f() { coproc CP { cat; }; }",
+    "f() { echo a & echo b & wait; }", "f() { cat <(echo ps) > >(cat); }", "f() { echo a 0>&- 1<&- 2>&-; echo b <&- >&-; }",
+    "f() { echo x 0<>o1 1<>o2; echo y 3<&2 4>&0 5<&1; }",
+]
+
+
 def code_round_trip(ctx, extended, specv):
     """A. the code itself on the full grammar (needs no model)"""
     rng = ctx.rng
@@ -529,7 +644,7 @@ def code_round_trip(ctx, extended, specv):
     n_full = 1500 if ctx.quick else 12000
     if extended:
         n_full *= 4
-    progs = []
+    progs = [(s, "f a b", frozenset(["corpus"])) for s in CORPUS] + [(s, "", frozenset(["corpus"])) for s in CORPUS_NORUN]
     for i in range(n_full):
         runnable = i % 3 != 2
         g = Gen(rng, plain=(i % 4 == 3), size=rng.choice([3, 8, 20]), clean=(i % 2 == 0), runnable=runnable)
@@ -541,7 +656,7 @@ def code_round_trip(ctx, extended, specv):
         if re.search(r"\( \(", src):
             g.feat.add("nested_subshell")
         progs.append((src, call, frozenset(g.feat)))
-    res = ctx.impl("c14rt", [[s, c] for s, c, _ in progs])
+    res = impl_marked(ctx, [[s, c] for s, c, _ in progs])
     verdicts = {}
     by_feat = {}
     rt = []
@@ -625,10 +740,14 @@ def code_round_trip(ctx, extended, specv):
 
 
 def run(ctx, extended=False):
+    import time
     rng = ctx.rng
     mism, specv = [], []
+    t0 = time.time()
     progs, rt, verdicts, by_feat, unparsed, bash_stats = code_round_trip(ctx, extended, specv)
+    t1 = time.time()
     export_stats, export_n = export_path(ctx, extended, specv)
+    t2 = time.time()
     # ------------------------------------------------------------------ B. printer model == Display on the sub-grammar
     n_plain = 2500 if ctx.quick else 20000
     if extended:
@@ -714,6 +833,7 @@ def run(ctx, extended=False):
     if xbad or xbad2:
         raise core.CheckBroken("extracted runner and vm_compute disagree (case %r)" % ((mcases[xbad[0]] if xbad else tstr[xbad2[0]]),))
 
+    specv.sort(key=lambda v: (1 if v.get("known") else 0, len(str(v["input"].get("source", v["input"])))))
     return {
         "evaluations": len(progs) + len(mcases) + len(tstr) + export_n,
         "distinct_nontrivial": len({s for s, _, f in progs if f}) + len({s for s, f in msrc if f}),
@@ -730,7 +850,17 @@ def run(ctx, extended=False):
         "distribution": {"verdicts": verdicts, "by_feature_cases_failing": {k: v for k, v in sorted(by_feat.items())},
                          "not_accepted_by_brush": unparsed, "subgrammar_programs": len(mcases), "subgrammar_skipped": skipped,
                          "printed_texts_not_separating": sep_fail, "tokenizer_strings": len(tstr),
-                         "flat_functions_parsed_by_the_parser_model": flat_n, "export_to_child_process": export_stats},
+                         "flat_functions_parsed_by_the_parser_model": flat_n, "export_to_child_process": export_stats,
+                         "phase_seconds": {"A_code_round_trip_and_bash": round(t1 - t0), "export_path": round(t2 - t1),
+                                           "B_models": round(time.time() - t2)}},
+        "notes": ["proof-backed (Coq model + theorems + correspondence every run): the printer on the sub-grammar of Print/Show.v "
+                  "(simple commands with every file/dup/close/&>/here-string redirect incl. explicit fd numbers, pipelines, and-or, "
+                  "lists, brace group, subshell, for, while/until, if, case, nested functions, redirect lists behind compounds and "
+                  "function bodies): show == Display, tokenize(show) == lexemes; parse round trip for flat function definitions",
+                  "differential only (code vs itself after print/re-parse: AST equality modulo locations, fixed point, import, behaviour; "
+                  "code vs bash as second reader; real export to child processes): here-documents (with fd), process substitutions, "
+                  "(( )), for (( )), [[ ]] operators, assignment forms (a+=(..), a[i]+=v, a=([k]=v), declare -A), time/! combinations, "
+                  "coproc, `function f` headers, quoted/expanding/extglob words"],
         "extraction_crosscheck": {"cases": len(sidx) + len(tidx), "agree": len(sidx) + len(tidx)},
         "spec_vs_bash": bash_stats,
         "model_mismatches": mism,
